@@ -19,6 +19,7 @@ import (
 	"net/netip"
 	"sort"
 	"sync"
+	"sync/atomic"
 	"testing"
 	"time"
 
@@ -730,7 +731,27 @@ func (m *qnMon) processNet(ev qnEvent) *vs.Violation {
 		m.sentTo[ev.to] += int64(ev.length)
 		if !m.validated[ev.to] {
 			if m.sentTo[ev.to] > 3*m.recvFrom[ev.to] {
-				return vs.Violf("C27", "amplification", "net:amplification", "server has sent %d bytes to the unvalidated address %v but received only %d from it (limit %d)", m.sentTo[ev.to], ev.to, m.recvFrom[ev.to], 3*m.recvFrom[ev.to])
+				var hist []string
+				m.log.mu.Lock()
+				for _, e := range m.log.events {
+					switch e.kind {
+					case "send", "deliver":
+						hist = append(hist, fmt.Sprintf("%s %v>%v %dB@%v", e.kind, e.from, e.to, e.length, e.at))
+					case "qlog":
+						dir := "recv"
+						if e.sent {
+							dir = "sent"
+						}
+						hist = append(hist, fmt.Sprintf("%s:%s %s#%d", e.conn.vantage, dir, e.ptype, e.pnum))
+					case "newconn":
+						hist = append(hist, fmt.Sprintf("newconn server=%v %v retry=%v", e.server, e.from, e.retry))
+					}
+				}
+				m.log.mu.Unlock()
+				if len(hist) > 60 {
+					hist = hist[len(hist)-60:]
+				}
+				return vs.Violf("C27", "amplification", "net:amplification", "server has sent %d bytes to the unvalidated address %v but received only %d from it (limit %d); history: %v", m.sentTo[ev.to], ev.to, m.recvFrom[ev.to], 3*m.recvFrom[ev.to], hist)
 			}
 			if m.sentTo[ev.to]+1200 > 3*m.recvFrom[ev.to] {
 				vs.G.Inc("probe.amplification_limit_reached")
@@ -1418,6 +1439,7 @@ func qnRunOnce(t *testing.T, rt *rapid.T, focus string) {
 		r.net.DecideOverride = r.ghostPolicy
 		var ghostEPs []*Endpoint
 		var ghostNodes []*vs.PacketNode
+		var ghostsRunning atomic.Int32
 		for i, g := range p.ghosts {
 			i, g := i, g
 			gn := r.net.Node(qnGhostAddr(i).String())
@@ -1432,8 +1454,14 @@ func qnRunOnce(t *testing.T, rt *rapid.T, focus string) {
 			ghostEPs = append(ghostEPs, gep)
 			ghostNodes = append(ghostNodes, gn)
 			gcfg := r.config(p.cli, false)
+			ghostsRunning.Add(1)
 			go func() {
-				time.Sleep(g.delay)
+				defer ghostsRunning.Add(-1)
+				select {
+				case <-time.After(g.delay):
+				case <-ctx.Done():
+					return
+				}
 				c, err := gep.Dial(ctx, "udp", "10.0.0.1:443", gcfg)
 				if err == nil {
 					c.Abort(nil)
@@ -1503,8 +1531,8 @@ func qnRunOnce(t *testing.T, rt *rapid.T, focus string) {
 		for _, g := range ghostNodes {
 			g.Close()
 		}
-		for i := 0; i < 100 && r.net.InFlight() > 0; i++ {
-			sim.Sleep(time.Second) // let injected datagrams drain so no goroutine is left behind
+		for i := 0; i < 100 && (r.net.InFlight() > 0 || ghostsRunning.Load() > 0); i++ {
+			sim.Sleep(time.Second) // let injected datagrams and ghost dialers drain so no goroutine is left behind
 		}
 		if !sim.Drain() && harness == "" {
 			harness = fmt.Sprintf("tasks did not exit at teardown: %v", sim.PendingTasks())
